@@ -4,7 +4,12 @@ service answers -> service invocation + bytes written;  stage 2: those bytes, re
 the same client call -> result."""
 from runner import Prop
 from vlib import Case
+import vlib
 import mb, cligen
+
+PREV_REQ = ("RHR", 4660, 1)          # an answered request in front of the studied one on the serial line (pipelined)
+PREV_SLAVE = 0x55
+PREV_RSP = ("RHR", [0xBEEF])
 
 
 def canon_req(req):
@@ -24,8 +29,122 @@ def svc_token(reply):
     return "n"
 
 
+def expected_result(req, svc, typed):
+    """what the caller must get for `req` when the service produced `svc` (None: another property's business)"""
+    if svc.startswith("r="):
+        rsp = mb.parse_rsp(svc[2:])
+        if typed:
+            k = req[0]
+            if k in ("RC", "RDI"):
+                if len(rsp[1]) >= req[2]:
+                    return "B:" + mb.bits(mb.pad8(rsp[1])[:req[2]])
+                return None     # fewer bits than requested: C20's business
+            if k in ("RIR", "RHR", "RWMR"):
+                if len(rsp[1]) != req[2]:
+                    return None
+                return "W:" + mb.words(rsp[1])
+            return ("U", "T:InvalidData")
+        if mb.rsp_fc(rsp) != mb.req_fc(req):
+            return None         # the service did not answer *that* request (C06's business)
+        return "OK:" + mb.show_rsp(mb.pad_rsp(rsp))
+    return "EX:%d" % int(svc[2:])
+
+
+def result_ok(res, want):
+    if want is None:
+        return True
+    if isinstance(want, tuple):
+        return res == want[0] or res.startswith(want[1])
+    return res == want
+
+
+def st1_obs(c):
+    """(service invocations, reply frames) observed at the server stage; for the serial twin the pipelined
+    predecessor and its reply are taken off (their absence is reported as such)"""
+    r = c.impl or ""
+    if c.meta.get("ser"):
+        f = vlib.ser_norm(r).split("|")
+        if len(f) != 3:
+            return ["?" + r[:40]], ["?"]
+        calls = [] if f[0] == "-" else f[0].split(",")
+        w = "" if f[1] == "-" else f[1]
+        prevcall = "C:%d:%s" % (PREV_SLAVE, mb.show_req(PREV_REQ))
+        prevw = mb.rtu_frame(PREV_SLAVE, mb.spec_rsp_pdu(PREV_RSP)).hex()
+        if calls[:1] == [prevcall]:
+            calls = calls[1:]
+        else:
+            calls = ["<predecessor lost>"] + calls
+        if w.startswith(prevw):
+            w = w[len(prevw):]
+        else:
+            w = "<predecessor's reply lost>" + w
+        return calls, ([w] if w else [])
+    toks = r.split(",")
+    return [t for t in toks if t.startswith("C:")], [t[2:] for t in toks if t.startswith("W:")]
+
+
 class E2E(Prop):
     profiles = ["debug"]
+    direct_reply_for_none = True
+
+    def project(self, c, s):
+        return vlib.ser_norm(s) if c.meta.get("ser") else s
+
+    def direct_cases(self, scs, rng, tier):
+        """the same scenarios through the real client talking to the real server of its transport (loopback sockets, pty)"""
+        out = []
+        pool = [sc for sc in scs if not sc.get("pre") and not sc.get("setslaves")]
+        rng.shuffle(pool)
+        pool = pool[: (240 if tier == "quick" else 3000)]
+        i = 0
+        while i < len(pool):
+            n = rng.choice([1, 1, 2, 3])
+            grp = [sc for sc in pool[i:i + n] if sc["proto"] == pool[i]["proto"]]
+            i += n
+            proto = grp[0]["proto"]
+            slave = grp[0]["slave"] if rng.random() < 0.6 else rng.choice([0, 0, 1, 247, 248, 255])   # broadcast / boundary ids often
+            ops, metas = [], []
+            for sc in grp:
+                reply = sc["reply"]
+                cr = canon_req(sc["req"])
+                if cr is None:
+                    continue
+                if reply[0] == "none":
+                    reply = ("rsp", mb.matching_rsp(rng, cr)) if rng.random() < 0.7 else ("exc", rng.randrange(1, 12))
+                if reply[0] == "rsp" and (mb.spec_rsp_size(reply[1]) > 253 or (proto == "rtu" and not cligen.rtu_supported_rsp_pdu(mb.spec_rsp_pdu(reply[1])))):
+                    continue
+                if reply[0] != "rsp" and proto == "rtu" and not (1 <= mb.req_fc(sc["req"]) <= 0x2B):
+                    continue
+                if reply[0] == "rsp" and mb.rsp_fc(reply[1]) != mb.req_fc(sc["req"]):
+                    continue        # the client would (rightly) report a mismatch and the transports then differ in what is left unread
+                typed = bool(sc.get("typed"))
+                if typed and reply[0] == "rsp":
+                    want = expected_result(sc["req"], svc_token(reply), True)
+                    if want is None or isinstance(want, tuple):
+                        typed = False
+                ops.append("%s %s %s" % ("typed" if typed else "call", mb.show_req(sc["req"]), svc_token(reply)))
+                metas.append(dict(req=mb.show_req(sc["req"]), svc=svc_token(reply), typed=typed))
+            if not ops:
+                continue
+            flavour = proto if proto == "tcp" or rng.random() < 0.5 else "ser"
+            line = "E2E %s %d %s" % (flavour, slave, " ; ".join(ops))
+            m = dict(stage="direct", proto=proto, flavour=flavour, slave=slave, ops=metas)
+            if flavour == "ser":
+                m["model_line"] = "E2E rtu %d %s" % (slave, " ; ".join(ops))
+            out.append(Case(line, m))
+        return out
+
+    @staticmethod
+    def direct_obs(c):
+        """[(result, [invocations])] per operation of a direct case"""
+        out = []
+        for part in (c.impl or "").split(" ; "):
+            if " seen=" in part:
+                r, sn = part.rsplit(" seen=", 1)
+                out.append((r, [] if sn == "-" else sn.split("+")))
+            else:
+                out.append((part, ["?"]))
+        return out
 
     def scenarios(self, rng, tier):
         """yields dicts: proto, slave, setslaves(list), req, reply(('rsp',r)|('exc',c)|('excraw',c)|('none',)), typed(bool), allcomp(bool)"""
@@ -33,7 +152,9 @@ class E2E(Prop):
 
     def cases(self, rng, tier):
         cs = []
-        for sc in self.scenarios(rng, tier):
+        scs = list(self.scenarios(rng, tier))
+        direct = self.direct_cases(scs, rng, tier)
+        for sc in scs:
             ops = []
             slave = sc["slave"]
             for s in sc.get("setslaves", []):
@@ -45,14 +166,18 @@ class E2E(Prop):
             m = dict(stage=0, proto=sc["proto"], slave=slave, req=mb.show_req(sc["req"]), svc=svc_token(sc["reply"]),
                      typed=sc.get("typed", False), allcomp=sc.get("allcomp", False), first_slave=sc["slave"], nops=len(ops), npre=len(sc.get("pre", [])))
             cs.append(Case(cligen.cli_line(sc["proto"], sc["slave"], ops), m))
+        # spread the (slower) direct cases evenly
+        step = max(1, len(cs) // (len(direct) + 1))
+        for i, d in enumerate(direct):
+            cs.insert(min(len(cs), (i + 1) * step + i), d)
         return cs
 
     def followup(self, cases, rng, tier):
         out = []
-        st = max((c.meta.get("stage", 0) for c in cases), default=0)
+        st = max((c.meta.get("stage", 0) for c in cases if c.meta.get("stage") != "direct"), default=0)
         for c in cases:
             m = c.meta
-            if m.get("stage") != st:
+            if m.get("stage") != st or m.get("ser"):
                 continue
             if st == 0:
                 res, w = cligen.res_and_w(cligen.split_results(c.impl)[-1])
@@ -65,11 +190,24 @@ class E2E(Prop):
                 chunkings = list(mb.all_compositions(w)) if (m["allcomp"] and len(w) <= 11) else mb.chunkings(w, rng, 2) + [[w]]
                 for parts in chunkings:
                     out.append(Case("SRV %s %s - - %s" % (m["proto"], mb.rscript(parts), m["svc"]), dict(m, stage=1, frame=w.hex(), nchunks=len(parts))))
+                # the serial RTU server on a pty, the frame pipelined behind an answered request
+                if m["proto"] == "rtu" and rng.random() < (0.12 if tier == "quick" else 0.3):
+                    prev = mb.rtu_frame(PREV_SLAVE, mb.spec_req_pdu(PREV_REQ))
+                    stream = prev + w
+                    parts = rng.choice([[stream], mb.chunkings(stream, rng, 1)[0]])
+                    svc = "r=%s,%s" % (mb.show_rsp(PREV_RSP), m["svc"])
+                    exp = ["C:x", "W:" + mb.rtu_frame(PREV_SLAVE, mb.spec_rsp_pdu(PREV_RSP)).hex(), "C:y"]
+                    if m["svc"].startswith("r="):
+                        exp.append("W:" + mb.rtu_frame(m["slave"], mb.spec_rsp_pdu(mb.parse_rsp(m["svc"][2:]))).hex())
+                    elif m["svc"] != "n":
+                        exp.append("W:" + mb.rtu_frame(m["slave"], b"\x00\x00").hex())
+                    if canon_req(mb.parse_req(m["req"])) is not None:
+                        out.append(cligen.ser_case(parts, svc, exp, "w", meta=dict(m, stage=1, frame=w.hex(), nchunks=len(parts))))
             elif st == 1:
                 if m.get("nchunks") != 1 and not m["allcomp"]:
                     pass
                 ws = [t[2:] for t in (c.impl or "").split(",") if t.startswith("W:")]
-                if len(ws) != 1:
+                if len(ws) != 1 or m.get("ser"):
                     continue
                 if m.get("done2"):
                     continue
@@ -83,6 +221,6 @@ class E2E(Prop):
     def distribution(self, cases):
         d = {}
         for c in cases:
-            k = "stage%d_%s" % (c.meta.get("stage", 0), c.meta.get("proto"))
+            k = "stage%s_%s%s" % (c.meta.get("stage", 0), c.meta.get("flavour") or c.meta.get("proto"), "_serial" if c.meta.get("ser") else "")
             d[k] = d.get(k, 0) + 1
         return d
